@@ -30,6 +30,11 @@ type SRCase struct {
 	FailPub   bool    `json:"fail_pub,omitempty"`
 	Req       string  `json:"req"` // "nil" | "obj" | "bad"
 	Callbacks int     `json:"callbacks"`
+	// SlowCBMs: every extension callback takes this long (simulated time).
+	// The extended deadline still counts from the arrival of the
+	// pre-response. Such cases keep their messages at least 10 ms apart, so
+	// that nothing arrives while the callbacks (at most 8 ms) run.
+	SlowCBMs int `json:"slow_cb_ms,omitempty"`
 }
 
 // SendReqScenario: SendRequest returns the first real response within the
@@ -74,6 +79,28 @@ func (SendReqScenario) GenCase(r *rand.Rand, prop string) interface{} {
 			m.Burst, m.DelayMs = true, 0
 		}
 		c.Msgs = append(c.Msgs, m)
+	}
+	if c.Callbacks > 0 && chance(r, 35) {
+		c.SlowCBMs = 4
+		if c.TimeoutMs < 100 {
+			c.TimeoutMs = 105
+		}
+		for i := range c.Msgs {
+			m := &c.Msgs[i]
+			m.Burst = false
+			if m.DelayMs < 10 {
+				m.DelayMs = 10
+			}
+			if chance(r, 30) {
+				// just behind a deadline of 105 ms
+				m.DelayMs = pick(r, 110, 100)
+			}
+			if ms, ok := preTimeout(m.Data); ok && ms < 100 {
+				// (an extension shorter than the callbacks take would
+				// expire while they run)
+				m.Data = `timeout:"105"`
+			}
+		}
 	}
 	return c
 }
@@ -238,6 +265,10 @@ func (SendReqScenario) Execute(sim *sched.Sim, ci interface{}, prop string, race
 				foreignCB++
 			}
 			extMu.Unlock()
+			if c.SlowCBMs > 0 {
+				sim.Probe("slow extension callback")
+				time.Sleep(time.Duration(c.SlowCBMs) * time.Millisecond)
+			}
 		}
 	}
 	task := sim.Go("requester", func() {
